@@ -404,3 +404,100 @@ Section BytesProofs.
     unfold operation_list_list_hash. rewrite HM. cbn [bind]. rewrite Hdec. cbn [bind]. rewrite Hd. reflexivity.
   Qed.
 End BytesProofs.
+
+(* ---------- parametricity: the algorithm commutes with every homomorphism of hash algebras ---------- *)
+Section Hom.
+  Variable T1 T2 : Type.
+  Variable H1 : T1 -> T1 -> T1.
+  Variable H2 : T2 -> T2 -> T2.
+  Variable phi : T1 -> T2.
+  Hypothesis phi_H : forall a b, phi (H1 a b) = H2 (phi a) (phi b).
+
+  Lemma upd_map : forall (a : list T1) i v, upd i (phi v) (map phi a) = option_map (map phi) (upd i v a).
+  Proof.
+    induction a as [|x a IH]; intros i v; [destruct i; reflexivity|].
+    destruct i as [|i]; cbn [map upd]; [reflexivity|]. rewrite IH. destruct (upd i v a); reflexivity.
+  Qed.
+
+  Lemma pair_loop_map : forall cnt i (a : list T1),
+    pair_loop H2 cnt i (map phi a) = option_map (map phi) (pair_loop H1 cnt i a).
+  Proof.
+    induction cnt as [|c IH]; intros i a; [reflexivity|].
+    cbn [pair_loop]. rewrite !nth_error_map.
+    destruct (nth_error a (2 * i)) as [x|]; [|reflexivity].
+    destruct (nth_error a (2 * i + 1)) as [y|]; [|reflexivity].
+    cbn [option_map]. rewrite <- phi_H, upd_map.
+    destruct (upd i (H1 x y) a) as [a'|]; [|reflexivity]. cbn [option_map]. apply IH.
+  Qed.
+
+  Lemma step_map : forall fuel n (a : list T1),
+    step H2 fuel n (map phi a) = map_outcome phi (step H1 fuel n a).
+  Proof.
+    induction fuel as [|f IH]; intros n a; [reflexivity|].
+    cbn [step]. rewrite pair_loop_map.
+    destruct (pair_loop H1 ((n + 1) / 2) 0 a) as [a1|]; [|reflexivity]. cbn [option_map].
+    rewrite nth_error_map. destruct (nth_error a1 n) as [p|]; [|reflexivity]. cbn [option_map].
+    rewrite <- phi_H, upd_map.
+    destruct (upd ((n + 1) / 2) (H1 p p) a1) as [a2|]; [|reflexivity]. cbn [option_map].
+    destruct ((n + 1) / 2 =? 1).
+    - rewrite nth_error_map. destruct (nth_error a2 0); reflexivity.
+    - destruct (Nat.even ((n + 1) / 2)); [apply IH|].
+      rewrite nth_error_map. destruct (nth_error a2 ((n + 1) / 2)) as [q|]; [|reflexivity]. cbn [option_map].
+      rewrite upd_map. destruct (upd ((n + 1) / 2 + 1) q a2) as [a3|]; [|reflexivity]. cbn [option_map]. apply IH.
+  Qed.
+
+  Lemma last_opt_map : forall (l : list T1), last_opt (map phi l) = option_map phi (last_opt l).
+  Proof.
+    induction l as [|x l IH]; [reflexivity|]. destruct l as [|y l]; [reflexivity|].
+    change (last_opt (map phi (x :: y :: l))) with (last_opt (map phi (y :: l))).
+    change (last_opt (x :: y :: l)) with (last_opt (y :: l)). exact IH.
+  Qed.
+
+  Lemma py_reduce_map : forall e1 e2, phi e1 = e2 -> forall l : list T1,
+    py_reduce H2 e2 (map phi l) = map_outcome phi (py_reduce H1 e1 l).
+  Proof.
+    intros e1 e2 He l. unfold py_reduce. destruct l as [|x [|y r]].
+    - cbn. now rewrite phi_H, He.
+    - cbn. now rewrite phi_H, He.
+    - remember (x :: y :: r) as l eqn:El.
+      assert (R1 : reduce (fun x => H1 x e1) H1 (H1 e1 e1) l =
+                   match last_opt (map (fun x => H1 x e1) l) with
+                   | Some z => step H1 (length l) (length l) (map (fun x => H1 x e1) l ++ [z])
+                   | None => IndexError end) by (subst l; reflexivity).
+      assert (R2 : reduce (fun x => H2 x e2) H2 (H2 e2 e2) (map phi l) =
+                   match last_opt (map (fun x => H2 x e2) (map phi l)) with
+                   | Some z => step H2 (length (map phi l)) (length (map phi l)) (map (fun x => H2 x e2) (map phi l) ++ [z])
+                   | None => IndexError end) by (subst l; reflexivity).
+      rewrite R1, R2. clear R1 R2 El.
+      assert (Hm : map (fun x => H2 x e2) (map phi l) = map phi (map (fun x => H1 x e1) l)).
+      { rewrite !map_map. apply map_ext. intro a. now rewrite phi_H, He. }
+      rewrite Hm, last_opt_map, map_length.
+      destruct (last_opt (map (fun x => H1 x e1) l)) as [z|]; [|reflexivity]. cbn [option_map].
+      change [phi z] with (map phi [z]). rewrite <- map_app. apply step_map.
+  Qed.
+End Hom.
+
+Lemma free_term_universal : forall T (H : T -> T -> T) (e : T) (v : N -> T) (l : list term),
+  py_reduce H e (map (interp H e v) l) = map_outcome (interp H e v) (py_reduce HT Emp l).
+Proof. intros T H e v l. apply py_reduce_map; reflexivity. Qed.
+
+(* ---------- the serialisation used by the correspondence run is injective ---------- *)
+Lemma deser_ser : forall t, small t -> forall rest st, deser (ser t ++ rest) st = deser rest (t :: st).
+Proof.
+  induction t as [i| |l IHl r IHr]; intros Hs rest st.
+  - cbn [ser app deser]. rewrite !to_N_b8. cbn [small] in Hs.
+    replace ((i / 256) mod 256 * 256 + i mod 256)%N with i; [reflexivity|].
+    pose proof (N.div_mod i 256 ltac:(discriminate)) as E.
+    assert (i / 256 < 256)%N by (apply N.div_lt_upper_bound; [discriminate|exact Hs]).
+    rewrite (N.mod_small (i / 256) 256) by assumption. lia.
+  - reflexivity.
+  - destruct Hs as [Hl Hr]. cbn [ser]. rewrite <- !app_assoc. rewrite IHl by exact Hl. rewrite IHr by exact Hr.
+    reflexivity.
+Qed.
+
+Lemma ser_injective : forall t1 t2, small t1 -> small t2 -> ser t1 = ser t2 -> t1 = t2.
+Proof.
+  intros t1 t2 H1 H2 E.
+  pose proof (deser_ser t1 H1 [] []) as D1. pose proof (deser_ser t2 H2 [] []) as D2.
+  rewrite !app_nil_r in D1, D2. rewrite E in D1. rewrite D1 in D2. cbn in D2. congruence.
+Qed.
